@@ -8,6 +8,7 @@ pub mod c05;
 pub mod c09;
 pub mod c10;
 pub mod c11;
+pub mod c12;
 pub mod c13;
 pub mod history;
 
@@ -47,6 +48,7 @@ pub fn dispatch(prop: &str, tier: Tier, seed: u64, only: Option<usize>, args: &[
         "C09" => c09::run(&ctx),
         "C10" => c10::run(&ctx),
         "C11" => c11::run(&ctx),
+        "C12" => c12::run(&ctx),
         "C13" => c13::run(&ctx),
         _ => {
             eprintln!("unknown property {prop}");
